@@ -230,6 +230,12 @@ def main(prop: str, runner: Callable[[Ctx], None], argv: list[str]) -> int:
     ap.add_argument("--seed", type=int, default=int(os.environ.get("VERIF_SEED", "0") or 0))
     ap.add_argument("--replay", default=None)
     a = ap.parse_args(argv)
+    want = None
+    if a.replay:
+        # a replay file records tier, seed and the failing case; every driver is deterministic in (tier, seed), so the
+        # failing case is regenerated by re-running with them and looked up among the violations
+        want = json.loads(Path(a.replay).read_text())
+        a.tier, a.seed = want.get("tier", a.tier), int(want.get("seed", a.seed))
     ctx = Ctx(prop=prop, tier=a.tier, seed=a.seed, replay=a.replay)
     try:
         runner(ctx)
@@ -237,4 +243,9 @@ def main(prop: str, runner: Callable[[Ctx], None], argv: list[str]) -> int:
         traceback.print_exc()
         print(f"MACHINERY-FAILURE property={prop} (see traceback on stderr); no verdict", flush=True)
         return 2
+    if want is not None:
+        hit = [v for v in ctx.violations if v.what == want.get("what") or (v.clause == want.get("clause") and _jsonable(v.case) == want.get("case"))]
+        print(f"REPLAY property={prop} tier={a.tier} seed={a.seed} reproduced={'yes' if hit else 'no'} ({len(ctx.violations)} violation(s) in this run)")
+        if hit:
+            print(f"  what: {hit[0].what}")
     return finish(ctx)
